@@ -60,7 +60,7 @@ func braceExhaustive() []string {
 	return out
 }
 
-var braceOperands = []string{"-2", "0", "1", "07", "010", "-05", "9", "a", "e", "Z", "9223372036854775806", "9223372036854775807", "-9223372036854775808", "1.5", "", "00", "-0", "3", "A", "_"}
+var braceOperands = []string{"-2", "0", "1", "07", "010", "-05", "9", "a", "e", "Z", "9223372036854775806", "9223372036854775807", "-9223372036854775808", "1.5", "", "00", "-0", "3", "A", "_", "100", "12", "-12"}
 
 func braceTemplates() []string {
 	var out []string
